@@ -634,6 +634,10 @@ func (w *worker[T, JobType]) Pause() error {
 	switch s := w.status.Load(); s {
 	case running:
 		w.status.Store(paused)
+		// callers parked in WaitUntilFinished on the running worker were waiting
+		// for the queue to empty as well; on a paused worker only the in-flight
+		// jobs count, so their condition may hold from now on
+		w.releaseWaiters(w.curProcessing.Load())
 	case paused, stopped:
 		return nil
 	default:
